@@ -26,7 +26,7 @@ func All() map[string]orch.PropertySpec {
 			Parts: []orch.Part{{Family: fam.Trust{}, Monitors: []string{"C02"}}, {Family: fam.Forgery{}, Monitors: []string{"C02"}}}},
 		"C03": {ID: "C03", Level: "model_checking", Assumptions: trusted,
 			Rule: "cases are all documents TLC enumerates from spec/Profile.tla: the all-correct Response with 0..3 assertions and every set of at most two deviations from a 43-entry fault catalogue (root: Version, Destination, Issuer, Status; per assertion position: Issuer, Subject, SubjectConfirmation, Method, SubjectConfirmationData, Recipient, NotOnOrAfter), signed by the simulated IdP at the Response or at every assertion, or unsigned in skip mode, with and without a configured issuer; all replayed through ValidateEncodedResponse and RetrieveAssertionInfo; non-trivial = every case (each reaches profile validation)",
-			Parts: []orch.Part{{Family: fam.Profile{}, Monitors: []string{"C03"}}}},
+			Parts: []orch.Part{{Family: fam.Profile{}, Monitors: []string{"C03"}}, {Family: fam.Time{}, Monitors: []string{"C03"}}}},
 		"C05": {ID: "C05", Level: "model_checking", Assumptions: trusted,
 			Rule: "cases are all assignments TLC enumerates from spec/Time.tla of the SP clock, Conditions NotBefore, Conditions NotOnOrAfter and each assertion's SubjectConfirmationData NotOnOrAfter (1..2 assertions) to a tick or to absent / malformed, i.e. every relative order including all equalities; ticks are 500 ms apart and every bound is rendered in a seeded random RFC 3339 form (zone offset, fractional digits); all replayed; non-trivial = every case",
 			Parts: []orch.Part{{Family: fam.Time{}, Monitors: []string{"C05"}}}},
@@ -52,8 +52,8 @@ func All() map[string]orch.PropertySpec {
 			Rule: "structure enumerated by TLC from spec/Genuine.tla: signing placement (Response / every assertion / both) x 1..3 assertions x plain / encrypted x 6 canonicalisation algorithms x 4 digests x 8 signature algorithms (RSA, ECDSA) x KeyInfo present / absent x raw / DEFLATE x one- or two-certificate store; per case the IdP simulator draws NameID, attribute names, FriendlyName, NameFormat, 0..3 values per attribute, SessionIndex and instants over the XML character repertoire (markup characters, leading/trailing/inner whitespace incl. TAB/LF/CR, non-ASCII, astral, CDATA-end and comment fragments) and a layout (4 prefix styles, pretty-printing, comments, comment-split / CDATA text, attribute order, character references, quote style); every field is compared with the simulator's own data model; non-trivial = every case",
 			Parts: []orch.Part{{Family: fam.Genuine{}, Monitors: []string{"C08"}}}},
 		"C20": {ID: "C20", Level: "model_checking", Assumptions: trusted,
-			Rule: "every accepted case of the Genuine family (all layouts, raw and DEFLATE) and of the Forgery family (attacker-shaped roots, ID collisions, lifted signatures) is pre-decoded with DecodeUnverifiedBaseResponse and the five fields compared with the validated result",
-			Parts: []orch.Part{{Family: fam.Genuine{}, Monitors: []string{"C20"}}, {Family: fam.Forgery{}, Monitors: []string{"C20"}}}},
+			Rule: "every accepted case of the Genuine family (all layouts, raw and DEFLATE) and of the Forgery family (attacker-shaped roots, ID collisions, lifted signatures) is pre-decoded, and spec/Predecode.tla enumerates shadowing of the five fields on SSO Responses and LogoutResponses (namespace-qualified duplicates first/last, case variants, duplicated / nested / foreign-namespace Issuer) on unsigned and signed roots, raw and DEFLATE, with and without a configured issuer; every accepted case is pre-decoded with DecodeUnverifiedBaseResponse and the five fields compared with the validated result",
+			Parts: []orch.Part{{Family: fam.Predecode{}, Monitors: []string{"C20"}}, {Family: fam.Genuine{}, Monitors: []string{"C20"}}, {Family: fam.Forgery{}, Monitors: []string{"C20"}}}},
 		"C09": {ID: "C09", Level: "exploration", Assumptions: append([]string{"'for every byte string' is explored, not enumerated: TLC supplies the classes and positions, the driver the octets"}, trusted...),
 			Rule: "cases: (a) spec/Garbage.tla classes x 8 entry points (6 decoders + DecryptBytes + Decrypt) x normal / bare SP (empty store, no keys, no clock): 19 base-independent classes (bad base64, bad DEFLATE, non-XML, no root, wrong root, DOCTYPE entities, invalid UTF-8, undeclared prefixes, colon names, deep nesting, wide tree, many attributes, huge text, xmlns abuse ...), 7 positional damage classes at 7 (quick) / 25 (thorough) positions of 4 genuine messages, 18 structural damages of Signature / EncryptedData; (b) truncation and bit flip at every 11th (quick) / every (thorough) offset of each genuine message on its own entry points; (c) the ciphertext-shape sub-space of spec/Xmlenc.tla reached through an unsigned Response; (d) every case of the Forgery, Trust, Profile, Time and Logout families; distinct = distinct abstract (cfg,input); non-trivial = the input reaches the routine under test (DecryptBytes cases whose octets do not decode into an EncryptedAssertion are trivial)",
 			Parts: []orch.Part{{Family: fam.Garbage{}, Monitors: []string{"C09"}}, {Family: fam.Xmlenc{}, Monitors: []string{"C09"}}, {Family: fam.Forgery{}, Monitors: []string{"C09"}}, {Family: fam.Logout{}, Monitors: []string{"C09"}}, {Family: fam.Time{}, Monitors: []string{"C09"}}},
